@@ -52,7 +52,7 @@ struct Buf {
     bool dead;
 };
 struct View { int buf; size_t off, len; };
-struct Ext { void *p; size_t bytes; bool busy; };
+struct Ext { void *p; size_t bytes; bool busy; bool virt; };   // virt: address range only (never dereferenced): buffers of 2^31..2^62 bytes
 
 struct State {
     int nobj, nbuf;
@@ -134,7 +134,8 @@ void drop_ref(int o)
 void ext_free(int slot)
 {
     Ext &e = S.ext[slot];
-    if (e.p) { if (e.bytes) memset(e.p, 0xDD, e.bytes); free(e.p); }
+    if (e.p && !e.virt) { if (e.bytes) memset(e.p, 0xDD, e.bytes); free(e.p); }
+    e.virt = false;
     e.p = nullptr;
     e.bytes = 0;
     e.busy = false;
@@ -210,7 +211,7 @@ void check_at(int o, size_t i, bool use_const, int touch, bool trap)
     } else if (use_const) LIB(p = (void *)cstl_array_at_const(a, i));
     else LIB(p = cstl_array_at(a, i));
     verify_addr(o, i, p);
-    if (touch >= 0) {
+    if (touch >= 0 && !(S.bufs[S.view[o].buf].ext >= 0 && S.ext[S.bufs[S.view[o].buf].ext].virt)) {
         // write and read the element through the returned address: ASan checks it
         size_t sz = S.bufs[S.view[o].buf].sz;
         memset(p, touch, sz);
@@ -332,6 +333,7 @@ void do_alloc(int o, size_t nm, size_t sz)
 }
 
 // slot: a free external slot
+bool g_set_virtual;      // the buffer is an address range the harness never dereferences (element numbers beyond 2^31)
 void do_set(int o, int slot, size_t nm, size_t sz)
 {
     g_cur_op = "set";
@@ -340,9 +342,12 @@ void do_set(int o, int slot, size_t nm, size_t sz)
     if (o < NMAIN && S.view[o].buf >= 0 && S.view[o].off > 0) { S.nt_realloc = true; CNT("class.set_on_offset_slice"); }
     Ext &e = S.ext[slot];
     e.bytes = nm * sz;
-    e.p = malloc(e.bytes);           // exact size: ASan sees any overrun
+    e.virt = g_set_virtual;
+    if (e.virt) e.p = (void *)((uintptr_t)0x100000000000ull + (uintptr_t)slot * 0x10000000000000ull);   // far from every mapping
+    else e.p = malloc(e.bytes);      // exact size: ASan sees any overrun
     e.busy = true;
-    if (e.bytes) memset(e.p, 0xEE, e.bytes);
+    if (e.bytes && !e.virt) memset(e.p, 0xEE, e.bytes);
+    if (e.virt) CNT("class.set_virtual_huge");
     op_begin();
     drop_ref(o);
     LIB(cstl_array_set(a, e.p, nm, sz));
@@ -606,7 +611,7 @@ void vf_run(const uint8_t *data, size_t len)
 {
     // nothing survives a case: the library blocks were released by case_reset()
     g_record_events = false;
-    for (int i = 0; i < NEXT; i++) { if (S.ext[i].p) free(S.ext[i].p); S.ext[i] = Ext{nullptr, 0, false}; }
+    for (int i = 0; i < NEXT; i++) { if (S.ext[i].p && !S.ext[i].virt) free(S.ext[i].p); S.ext[i] = Ext{nullptr, 0, false, false}; }
     S.bufs.clear();
     for (int o = 0; o < NALL; o++) {
         memset(&g_arr[o], 0xDD, sizeof g_arr[o]);
@@ -671,13 +676,22 @@ void vf_run(const uint8_t *data, size_t len)
             size_t sz = decode_sz(bb);
             Ctx c = ctx_of(a, sz);
             size_t nm = is_tab(c1) ? table_val(tab_idx(c1), c, r1) : r1 % 41;
-            // the harness must really own nm*sz bytes
-            if ((u128)nm * sz > EXT_MAX) nm = r1 % 41;
-            if ((u128)nm * sz > EXT_MAX) nm = 0;
+            // the harness must really own nm*sz bytes -- or the buffer is a pure address range (never dereferenced)
+            // whose element numbers lie in the range that fits no 32-bit index: 2^31 .. 2^62 bytes
+            g_set_virtual = false;
+            if (!S.c16 && (r2 & 0xC0) == 0xC0 && sz <= 24) {
+                static const size_t VN[8] = {((size_t)1 << 31) - 1, (size_t)1 << 31, ((size_t)1 << 31) + 5, (size_t)1 << 32, ((size_t)1 << 32) + 7,
+                                             (size_t)3 << 30, (size_t)1 << 33, (size_t)1 << 40};
+                nm = VN[r1 % 8];
+                g_set_virtual = true;
+            }
+            if (!g_set_virtual && (u128)nm * sz > EXT_MAX) nm = r1 % 41;
+            if (!g_set_virtual && (u128)nm * sz > EXT_MAX) nm = 0;
             int slot = -1;
             for (int k = 0; k < S.nbuf; k++) { int q = (r2 + k) % S.nbuf; if (!S.ext[q].busy) { slot = q; break; } }
             if (slot < 0) { CNT("noop.set_no_free_buffer"); TRACE("set noop (all external buffers in use)"); break; }
             do_set(a, slot, nm, sz);
+            g_set_virtual = false;
             break;
         }
         case SLICE: {
